@@ -30,9 +30,16 @@ func splitSpecs(cr *crashRun, k int) (a, b []wl.BucketSpec) {
 // the value of a later write that was issued but not acknowledged; variable:
 // every acknowledged record at least once).
 func checkAckedPresent(cr *crashRun, k int, d *wl.Dump) error {
+	return checkAckedPresentSkip(cr, k, d, nil)
+}
+
+func checkAckedPresentSkip(cr *crashRun, k int, d *wl.Dump, skip map[string]bool) error {
 	rows := historyRows(cr.H)
 	for bi, spec := range cr.H.Buckets {
 		key := spec.Bucket().Key()
+		if skip[key] {
+			continue
+		}
 		bd := dumpFor(d, key)
 		if spec.Variable {
 			have := map[int64]int{}
